@@ -1379,6 +1379,24 @@ def rule_to_sparse(repo, col):
                       'shape:%s' % conv, c, 'shape forwarded',
                       'the declared shape is not forwarded to %s: the '
                       'matrix is sized by its largest coordinate' % conv)
+    # branches that build a matrix themselves must size it by `shape`
+    for n in body_walk(f):
+        if isinstance(n, ast.Return) and isinstance(n.value, ast.Call) and \
+                call_name(n.value) in ('coo_matrix', 'csr_matrix',
+                                       'csc_matrix') and n.value.args:
+            a0 = n.value.args[0]
+            literal = isinstance(a0, ast.Tuple) and all(
+                isinstance(x, ast.Constant) for x in a0.elts)
+            uses_shape = any(isinstance(x, ast.Name) and x.id == 'shape'
+                             for x in ast.walk(n.value))
+            col.check(uses_shape or not literal, rule, TABLE,
+                      'Table._to_sparse', 'empty-input-shape', n,
+                      'an input without entries yields an all-zero matrix of '
+                      'the declared shape', 'an input without entries is '
+                      'turned into a matrix of the literal shape %s, '
+                      'ignoring the declared shape: an all-zero table '
+                      'written as JSON ("data": []) cannot be read back '
+                      '(ids no longer match the 0x0 matrix)' % unparse(a0))
     last = f.body[-1]
     raises = [n for n in ast.walk(last) if isinstance(n, ast.Raise) and
               'TableException' in unparse(n)]
